@@ -579,9 +579,12 @@ def cubic_spline(  # pylint: disable=dangerous-default-value  # always replaced 
         if constraints is not None:
             if centering_constraint:
                 # Now we can compute centering constraints
-                constraints_arr = _get_centering_constraint_from_matrix(
-                    _get_free_cubic_spline_matrix(x, all_knots, cyclic=cyclic)
-                )
+                free_mat = _get_free_cubic_spline_matrix(x, all_knots, cyclic=cyclic)
+                if extrapolation is SplineExtrapolation.ZERO:
+                    # Out-of-range rows are returned as zeros, and count as such
+                    # in the column means of the training data.
+                    free_mat[below_lower | above_upper] = 0.0
+                constraints_arr = _get_centering_constraint_from_matrix(free_mat)
             df_before_constraints = all_knots.size
             if cyclic:
                 df_before_constraints -= 1
